@@ -54,6 +54,7 @@ type Contract struct {
 	KeepPre   bool // with nosafety: callee preconditions are still checked
 	AllocBound string
 	InlineDepth int
+	Case      string // label of a case contract (extra contract on a function, verify-only)
 	InlineCalls []string // callees (name suffixes) executed by their bodies although they have a contract
 	HasMod    bool
 	MaybeNil  map[string]bool
@@ -75,10 +76,14 @@ func (c *Contract) Display() string {
 	if c.Qualifier != "" {
 		short = c.Qualifier
 	}
-	if c.Recv != nil {
-		return fmt.Sprintf("%s.(%s).%s", short, c.Recv.Type, c.FuncName)
+	suffix := ""
+	if c.Case != "" {
+		suffix = "#" + c.Case
 	}
-	return short + "." + c.FuncName
+	if c.Recv != nil {
+		return fmt.Sprintf("%s.(%s).%s%s", short, c.Recv.Type, c.FuncName, suffix)
+	}
+	return short + "." + c.FuncName + suffix
 }
 
 func (c *Contract) HasProp(p string) bool {
@@ -90,7 +95,7 @@ func (c *Contract) HasProp(p string) bool {
 	return false
 }
 
-var kwRe = regexp.MustCompile(`^(prop|func|lemma|requires|ensures|modifies|preserves|callees-preserve|alloc-bound|nosafety|inline-depth|may-panic|maybe-nil|inline|trusted|noverify|sweep|loop|invariant|exit-assume|unroll|iface)\b(\[[A-Za-z0-9_\-\.]+\])?\s*(.*)$`)
+var kwRe = regexp.MustCompile(`^(prop|func|lemma|case|inline-calls|requires|ensures|modifies|preserves|callees-preserve|alloc-bound|nosafety|inline-depth|may-panic|maybe-nil|inline|trusted|noverify|sweep|loop|invariant|exit-assume|unroll|iface)\b(\[[A-Za-z0-9_\-\.]+\])?\s*(.*)$`)
 
 // ParseContractFile extracts //@ blocks from one Go file.
 func ParseContractFile(path, pkgPath string) ([]*Contract, error) {
@@ -118,7 +123,19 @@ func ParseContractFile(path, pkgPath string) ([]*Contract, error) {
 		case "prop":
 			props = strings.Fields(p.text)
 			return nil
-		case "func", "lemma", "iface":
+		case "func", "lemma", "iface", "case":
+			caseLabel := ""
+			if p.kw == "case" {
+				// case <label> (recv) name(params) results: one more contract on the same function,
+				// verified on its own, never used at call sites
+				t := strings.TrimSpace(p.text)
+				i := strings.IndexAny(t, " \t")
+				if i < 0 {
+					return fmt.Errorf("%s:%d: case needs a label and a function header", path, p.line)
+				}
+				caseLabel = t[:i]
+				p.text = strings.TrimSpace(t[i:])
+			}
 			c, err := parseHeader(p.text)
 			if err != nil {
 				return fmt.Errorf("%s:%d: %v", path, p.line, err)
@@ -130,6 +147,7 @@ func ParseContractFile(path, pkgPath string) ([]*Contract, error) {
 			c.Line = p.line
 			c.Lemma = p.kw == "lemma"
 			c.RecvIface = p.kw == "iface"
+			c.Case = caseLabel
 			cur = c
 			curLoop = nil
 			out = append(out, c)
